@@ -648,10 +648,19 @@ func (fsm *storeFSM) Restore(r io.ReadCloser) error {
 		return err
 	}
 
-	// Set metadata on store.
-	// NOTE: No lock because Hashicorp Raft doesn't call Restore concurrently
-	// with any other function.
+	// Set metadata on store. Raft does not call Restore concurrently with any
+	// other FSM function, but the HTTP handlers read the data under the store
+	// lock and long-pollers wait on dataChanged for anything newer than what
+	// they have: install the snapshot like Apply installs a change.
+	s := (*store)(fsm)
+	s.mu.Lock()
+	defer s.mu.Unlock()
+
 	fsm.data = data
+	if s.dataChanged != nil {
+		close(s.dataChanged)
+	}
+	s.dataChanged = make(chan struct{})
 
 	return nil
 }
